@@ -45,4 +45,39 @@ theorem svsRun_eq (fuel : Nat) (stack : List Expr) (found : Option VVar) :
       | none => rfl
       | some p => rfl
 
+/-- the shortcut test of `Problem.variables` in the model is the translated one -/
+theorem shortcutSource_eq (obj : Option Expr) (cons : List Expr) :
+    shortcutSource obj cons = shortcutG singleVectorSource obj cons := by
+  unfold shortcutSource shortcutG
+  cases obj with
+  | none => rfl
+  | some o =>
+    simp only
+    cases singleVectorSource o with
+    | none => rfl
+    | some src =>
+      simp only
+      have h : ∀ c, (match singleVectorSource c with
+                      | some s => s.oid == src.oid
+                      | none => false)
+           = !((singleVectorSource c).isNone ||
+                (match singleVectorSource c with | some s => s.oid != src.oid | none => true)) := by
+        intro c
+        cases singleVectorSource c with
+        | none => rfl
+        | some s => cases hs : (s.oid == src.oid) <;> simp [bne, hs]
+      congr 1
+      congr 1
+      apply List.all_congr rfl
+      intro c
+      exact h c
+
+/-- the general path of `Problem.variables`: the union over objective and constraints through `get_all_variables`,
+    sorted by `_natural_sort_key`, stored in the memo slot and returned -/
+theorem generalPath_text :
+    generalPathG = ["all_vars: set[Variable] = set()",
+      "if self._objective is not None: all_vars.update(get_all_variables(self._objective))",
+      "for constraint in self._constraints: all_vars.update(get_all_variables(constraint.expr))",
+      "self._variables = sorted(all_vars, key=_natural_sort_key)", "return self._variables"] := by decide
+
 end Optyx.Props.VarsTie
